@@ -443,6 +443,10 @@ impl Ctx {
                 Ok(format!("({})", parts?.join(", ")))
             }
             Expr::Cast(c) => self.expr(&c.expr),
+            Expr::Field(f) => {
+                let key = f.to_token_stream().to_string().replace(' ', "");
+                self.subst.get(&key).cloned().ok_or(format!("field access outside subset: {key}"))
+            }
             other => Err(format!("expression outside subset: {}", other.to_token_stream())),
         }
     }
